@@ -10,19 +10,24 @@ LEVEL = "exploration"
 
 def cells(tier):
     out = []
-    mods = [("one", 2.1, 20, 0), ("two", 0.92, 20, 0), ("one", 2.15, 20, 1)] if tier == "quick" else \
-           [("one", 2.1, 20, 0), ("one", 2.15, 30, 0), ("two", 0.92, 20, 0), ("two", 0.92, 30, 0), ("one", 2.15, 20, 1), ("two", 0.92, 20, 2)]
+    # last entry: unit factor -- the same model with temperatures of order 2e-3 / 2e5 in the user's units (a tolerance on the
+    # temperature that is absolute in those units shows up as a residual there and nowhere else)
+    mods = [("one", 2.1, 20, 0, 1.0), ("two", 0.92, 20, 0, 1.0), ("one", 2.15, 20, 1, 1.0), ("one", 2.1, 20, 0, 1e-5)] if tier == "quick" else \
+           [("one", 2.1, 20, 0, 1.0), ("one", 2.15, 30, 0, 1.0), ("two", 0.92, 20, 0, 1.0), ("two", 0.92, 30, 0, 1.0), ("one", 2.15, 20, 1, 1.0), ("two", 0.92, 20, 2, 1.0),
+            ("one", 2.1, 20, 0, 1e-5), ("one", 2.15, 20, 1, 1e-4), ("two", 0.92, 20, 0, 1e-4), ("one", 2.1, 20, 0, 1e3)]
     ratios = [1.0, 2.5] if tier == "quick" else [1 / 3, 0.6, 1.0, 1.7, 3.0]
     offs = [0.0, 1.5] if tier == "quick" else [-2.0, -0.7, 0.0, 0.7, 2.0]
     vfs = [0.5, 0.9] if tier == "quick" else [0.2, 0.5, 0.8, 0.95]
-    for mdl, tn, M, P in mods:
+    for mdl, tn, M, P, u in mods:
         g = []
         for br in ("defl", "hyb", "det"):
             for vf in vfs:
                 for r in (ratios if mdl == "two" else [1.0]):
                     for o in (offs if mdl == "two" else [0.0]):
                         for mom in ((False, True) if P else (False,)):
-                            g.append(dict(model=mdl, tn=tn, M=M, particles=P, branch=br, vfrac=vf, ratio=r, offset=o, moments=mom))
+                            if u != 1.0 and mdl == "two" and (r, o) not in ((1.0, 0.0), (ratios[-1], offs[-1])):
+                                continue
+                            g.append(dict(model=mdl, tn=tn, M=M, particles=P, branch=br, vfrac=vf, ratio=r, offset=o, moments=mom, **({} if u == 1.0 else {"u": u})))
         out.append(("profile", g))
     return out
 
@@ -44,7 +49,7 @@ def run(chk, tier, seed):
             kinds[p["kind"]] = kinds.get(p["kind"], 0) + 1
     far = sum(1 for tr in traces if tr["ev"][0].get("farLow")) + sum(1 for tr in traces if tr["ev"][0].get("farHigh"))
     chk.extra.update(profiles=len(traces), points_by_outcome=kinds, far_field_ends_checked=far, checker_cmd="tlc WallProfile.tla ; tlc TraceWallProfile.tla (PROP=C04)")
-    chk.rule = ("profiles = polynomial model (analytic T dependence) x grid size x branch (deflagration / hybrid / detonation) x wall velocity within the "
+    chk.rule = ("profiles = polynomial model (analytic T dependence; also in units where T ~ 2e-3, 2e-2 and 2e5) x grid size x branch (deflagration / hybrid / detonation) x wall velocity within the "
                 "branch x width ratio <= 3 x |offset| <= 2 x supplied out-of-equilibrium moments (zero, or smooth ~1e-3 of the equilibrium enthalpy); "
                 "T30, T33 rebuilt by the harness from T, v, analytic V and dV/dT, the field gradient and boosted direct moment integrals")
     chk.assumptions += ["analytic dV/dT of the polynomial models", "boost algebra for the supplied moments (checked against deltaToTmunu in C13)"]
